@@ -487,7 +487,7 @@ def conversion_lines(chk, infos, quick, c20, byname):
                 if sh == 'i' and v >> 63 and rng.random() < 0.5:
                     sh = 'u'
                 if sh == 'm':       # the whole operand: 64-bit memory types only
-                    forms = ['b', 'bd', 'bi', 'bid'] if c20 else G.FORMS
+                    forms = G.FORMS
                     optexts = [G.mem_desc(rng, rng.choice(['i64', 'u64']), forms) + ':%x' % v]
             dst = 'r' if rng.random() < 0.75 else None
             lines.append(G.gen_case(info, rng, 'v%d' % len(lines), vals=[v], shapes=[sh], dst=dst, c20=c20, optexts=optexts, press=0))
@@ -508,7 +508,7 @@ def class_operand(cls, info, pos, rng, c20):
     if cls == 'r':
         return 'r:%x' % val
     ty = cls[1:]
-    return G.mem_desc(rng, ty, ['b', 'bd', 'bi', 'bid'] if c20 else G.FORMS) + ':%x' % (val & ((1 << (8 * G.TYPE_SIZE[ty])) - 1))
+    return G.mem_desc(rng, ty, G.FORMS) + ':%x' % (val & ((1 << (8 * G.TYPE_SIZE[ty])) - 1))
 
 
 def aimed_lines(chk, infos, quick, c20, byname):
@@ -548,7 +548,7 @@ def aimed_lines(chk, infos, quick, c20, byname):
                         cands.append('y')
                     if a[0] == 'm':
                         cands += ['X', 'X']
-                    cands.append(G.mem_desc(rng, rng.choice(G.MEM_INT_TYPES), ['b', 'bd', 'bi', 'bid'] if c20 else G.FORMS))
+                    cands.append(G.mem_desc(rng, rng.choice(G.MEM_INT_TYPES), G.FORMS))
                     dst = rng.choice(cands)
                 lines.append(G.gen_case(info, rng, cid('a'), vals=[0] * len(info.args), shapes=[(c or 'r')[0] for c in (a, b) if c],
                                         dst=dst, c20=c20, far=far, bover=rng.random() < 0.4, optexts=ops, press=0))
